@@ -21,7 +21,8 @@ from .common import drain_into, merge_stats, setup
 PROPERTY = "C13"
 RULE = ("every gate class x every target_qubit option x every basis input; SWAP over all ordered mode 4-tuples within 6 "
         "modes (complete enumeration of the discrete part); rotation angles from a fixed grid of 64 values (multiples of "
-        "pi/4, +-2pi, ...) plus seeded random angles; distinct = (gate, option, angle); non-trivial = every case "
+        "pi/4, +-2pi, ...), every multiple of pi/4, pi/3 and pi up to |k|=64 with its floating-point neighbours, accumulated "
+        "and linspace sweep values, plus seeded random angles; distinct = (gate, option, angle); non-trivial = every case "
         "(each checks a full amplitude matrix incl. relative phases)")
 MANDATORY = ["single_qubit", "rotation", "CZ", "CNOT", "CZ_Heralded", "CNOT_Heralded", "CCZ", "CCNOT", "SWAP",
              "heralded_leakage_checked", "second_pass_shuffled"]
@@ -116,6 +117,33 @@ GRID = sorted({k * math.pi / 4 for k in range(-8, 9)} | {k * math.pi / 3 for k i
                  1.5707, 3.1415, 4.7123, 5.5, -3.3, 8.8, 0.01, -0.01})
 
 
+def special_angles():
+    """Angles where a closed-form / table shortcut could go wrong: every multiple of pi/4 and pi/3 up to |k| = 64
+    written the obvious way, their floating-point neighbours, and values that carry accumulated rounding error."""
+    out = set(GRID)
+    base = set()
+    for k in range(-64, 65):
+        base.add(k * math.pi / 4)
+        base.add(k * (math.pi / 2) / 2)
+        base.add(k * math.pi / 3)
+        base.add(k * math.pi)
+    for v in list(base):
+        out.add(v)
+        out.add(float(np.nextafter(v, 0)))
+        out.add(float(np.nextafter(v, math.inf)))
+        out.add(float(np.nextafter(v, -math.inf)))
+    for steps, unit in ((6, math.pi / 6), (12, math.pi / 6), (8, math.pi / 4), (10, math.pi / 5), (3, math.pi / 3)):
+        acc = 0.0
+        for _ in range(steps * 4):
+            acc += unit
+            out.add(acc)
+            out.add(-acc)
+    for n in (101, 51, 33):
+        out.update(float(x) for x in np.linspace(-math.pi, math.pi, n))
+        out.update(float(x) for x in np.linspace(0, 4 * math.pi, n))
+    return sorted(out)
+
+
 def run(ctx):
     lw = setup(ctx, warm=False)
     install_gate_monitors(lw)
@@ -125,7 +153,7 @@ def run(ctx):
     for name in SINGLE:
         jobs.append((name, ()))
     for name in ROT:
-        for th in GRID:
+        for th in special_angles():
             jobs.append((name, (th,)))
     jobs += [("CZ", ()), ("CZ_Heralded", ()), ("CCZ", ())]
     jobs += [("CNOT", (t,)) for t in (0, 1)] + [("CNOT_Heralded", (t,)) for t in (0, 1)]
